@@ -17,6 +17,7 @@ import bounded.bp_lower_bound  # noqa: E402
 import bounded.instgen  # noqa: E402
 import bounded.text_roundtrip  # noqa: E402
 import bounded.ode  # noqa: E402
+import bounded.fom  # noqa: E402
 import contracts.ode  # noqa: E402
 import contracts.bp_instance  # noqa: E402
 import contracts.order1d  # noqa: E402
@@ -232,6 +233,19 @@ PLANS["C10"] = Plan(
                  "the outer retry loop of run_ode (scipy objects) is not under contract: bounded only"],
 )
 
+PLANS["C11"] = Plan(
+    "C11", "exploration",
+    bounded=[bounded.fom.harness],
+    explanation="bounded interleaving monitor on the real FigureOfMerit / FigureOfMeritLE objects: evaluate(x) after arbitrary "
+                "sequences of evaluate / initialize / set_model / set_raw / get_differentials equals evaluate(x) of a fresh "
+                "object and an independent recomputation of the documented aggregate; values in [0, 1e100] or 1e200; collected "
+                "training rows accounted exactly (grow only in raw mode, unchanged by get_differentials, cleared by initialize)",
+    assumptions=["E7: run_ode / j_from_ode / diff_from_ode and the compiled controller/equation callables are deterministic "
+                 "functions of their arguments (this is exactly the doubt voiced by the comment in evaluate; monitored, not proved)",
+                 "parameter scale limited to |x| <= 10: for |x| ~ 1e8 single evaluations take minutes (observation about RK45, "
+                 "see DESIGN.md)"],
+)
+
 PLANS["C14"] = Plan(
     "C14", "proof",
     functions=[E1 + ":__move_down", E1 + ":__move_left", E1 + ":_decode",
@@ -269,6 +283,11 @@ PLANS["C05"] = Plan(
 
 
 META = {
+    "C11": {"text": "interleaving monitor (bounded): values of evaluate after arbitrary method sequences vs a fresh object and vs "
+                    "an independent recomputation; exact accounting of collected data",
+            "note": "exploration level: a deductive treatment of the object state (frames of set_raw/set_model/initialize, "
+                    "write-before-read of the result buffer) is designed in DESIGN.md C11 and not built yet",
+            "technique": "run-time contract monitor over operation sequences (bounded stand-in)"},
     "C10": {"text": "the integer/array logic around the integrator is proved (_is_ok, the figure-of-merit buffer computation and "
                     "its allocation); the simulation post-condition is monitored on a fixed family of programs including "
                     "diverging and NaN/inf controllers; termination/accuracy of scipy RK45 is outside any contract here",
